@@ -619,8 +619,12 @@ def conj_norm(n):
     order its extraction passes find them (combinations first; statements with annotations or inner parentheses after the
     plain ones), which is not the source order and not part of what is written. The conjunction at the top of a nested
     component is therefore compared as a multiset of its operands."""
+    if n[0] != 'C':
+        return n
+    top = n[6]       # the operator at the top: the implicit AND, or the one operator written between sibling nested statements
+
     def flat(x):
-        if x[0] == 'C' and x[6] == 'AND' and not x[4] and not x[5] and not x[2] and not x[3]:
+        if x[0] == 'C' and x[6] == top and not x[4] and not x[5] and not x[2] and not x[3]:
             return flat(x[7]) + flat(x[8])
         return [x]
     ops = flat(n)
@@ -629,7 +633,7 @@ def conj_norm(n):
     ops = sorted((('L' if o[0] == 'L' else 'C', b"") + tuple(o[2:]) for o in ops), key=repr)
     acc = ops[0]
     for o in ops[1:]:
-        acc = ('C', b"", None, None, [], [], 'AND', acc, o)
+        acc = ('C', b"", None, None, [], [], top, acc, o)
     return ('C', n[1]) + acc[2:]
 
 
